@@ -390,31 +390,40 @@ class TokamakEquilibrium(Equilibrium):
             if pressure is not None:
                 dpdpsi = (pressure[-1] - pressure[-2]) / (psi1D[-1] - psi1D[-2])
 
+            psi_sol_values = [
+                p
+                for p in (self.user_options.psi_sol, self.user_options.psi_sol_inner)
+                if p is not None
+            ]
+            if len(psi_sol_values) == 0:
+                raise ValueError(
+                    "extrapolate_profiles needs the unnormalised flux at the SOL boundary: "
+                    "set psi_sol (and/or psi_sol_inner)"
+                )
             if self.psi_increasing:
-                psi_outer = max(
-                    self.user_options.psi_sol, self.user_options.psi_sol_inner
-                )
+                psi_outer = max(psi_sol_values)
             else:
-                psi_outer = min(
-                    self.user_options.psi_sol, self.user_options.psi_sol_inner
-                )
+                psi_outer = min(psi_sol_values)
             if (self.psi_increasing and psi_outer > psi1D[-1]) or (
                 not self.psi_increasing and psi_outer < psi1D[-1]
             ):
                 # if psi_outer is not beyond the last point of psi1D, no need to extend
                 # Exclude first point since duplicates last point in core
                 psiSOL = np.linspace(psi1D[-1], psi_outer, 50)[1:]
+
+                if pressure is not None:
+                    # Use an exponential decay for the pressure, based on
+                    # the value and gradient at the plasma edge
+                    p0 = pressure[-1]
+                    # p = p0 * exp( (psi - psi0) * dpdpsi / p0)
+                    pressure = np.concatenate(
+                        [pressure, p0 * np.exp((psiSOL - psi1D[-1]) * dpdpsi / p0)]
+                    )
+
                 psi1D = np.concatenate([psi1D, psiSOL])
 
                 # fpol constant in SOL
                 fpol1D = np.concatenate([fpol1D, np.full(psiSOL.shape, fpol1D[-1])])
-
-            if pressure is not None:
-                # Use an exponential decay for the pressure, based on
-                # the value and gradient at the plasma edge
-                p0 = pressure[-1]
-                # p = p0 * exp( (psi - psi0) * dpdpsi / p0)
-                pressure = np.concatenate([pressure, p0 * np.exp(psiSOL * dpdpsi / p0)])
 
         self.magneticFunctionsFromGrid(
             R1D, Z1D, psi2D, self.user_options.psi_interpolation_method
